@@ -1,8 +1,8 @@
 package main
 
 import (
-	cparsers "github.com/pip-services3-gox/pip-services3-expressions-gox/calculator/parsers"
 	"fmt"
+	cparsers "github.com/pip-services3-gox/pip-services3-expressions-gox/calculator/parsers"
 	"math/rand"
 	"strings"
 
@@ -79,11 +79,11 @@ func (c *c18coll) list() []any {
 	out := []any{}
 	if c.kind == "variables" {
 		for _, v := range c.vars.GetAll() {
-			out = append(out, []any{v.Name(), strings.ToLower(v.Name()), c.id(v), v.Value().IsNull()})
+			out = append(out, []any{v.Name(), collKey(v.Name()), c.id(v), v.Value().IsNull()})
 		}
 	} else {
 		for _, f := range c.fns.GetAll() {
-			out = append(out, []any{f.Name(), strings.ToLower(f.Name()), c.id(f), false})
+			out = append(out, []any{f.Name(), collKey(f.Name()), c.id(f), false})
 		}
 	}
 	return out
@@ -107,7 +107,7 @@ func execC18(seg []Ev) []Ev {
 		}
 		e := Ev{"op": op}
 		name, _ := in["name"].(string)
-		key := strings.ToLower(name)
+		key := collKey(name)
 		if name != "" {
 			e["name"], e["key"] = name, key
 		}
@@ -233,6 +233,12 @@ func execC18(seg []Ev) []Ev {
 	return out
 }
 
+// collKey: the key under which the collections compare names (the host's upper-case mapping)
+func collKey(name string) string { return strings.ToUpper(name) }
+
+// nameKey: the same comparison written in lower case, as the generated syntax trees spell their keys
+func nameKey(name string) string { return strings.ToLower(strings.ToUpper(name)) }
+
 func execNames(in Ev) Ev {
 	a := astFromEv(in)
 	root := toInt(in["root"])
@@ -262,7 +268,7 @@ func execNames(in Ev) Ev {
 	snapshot := func() []any {
 		out := []any{}
 		for _, v := range calc.DefaultVariables().GetAll() {
-			out = append(out, []any{v.Name(), strings.ToLower(v.Name()), idOf(v) * 1000 + idOf(v.Value())})
+			out = append(out, []any{v.Name(), nameKey(v.Name()), idOf(v)*1000 + idOf(v.Value())})
 		}
 		return out
 	}
@@ -314,7 +320,7 @@ func execNames(in Ev) Ev {
 	cp := parsersNew()
 	if perr := cp.ParseString(text); perr == nil {
 		for _, n := range cp.VariableNames() {
-			names = append(names, []any{n, strings.ToLower(n)})
+			names = append(names, []any{n, nameKey(n)})
 		}
 	}
 	e["names"] = names
@@ -394,6 +400,41 @@ func genC18(g *Gen) {
 			g.Run("random trees (identifiers in every position, repeated in different case)",
 				[]Ev{{"op": "names", "nodes": nodesAny(a), "root": root, "mode": r.Intn(3), "pseed": int(r.Int31())}})
 		}
+		// many distinct variables, the late ones occurring again (also in another letter case)
+		for _, cnt := range []int{8, 31, 32, 33, 34, 35, 40, 64, 65, 70, 130} {
+			if cnt > g.Pick(70, 130) {
+				continue
+			}
+			for variant := 0; variant < 3; variant++ {
+				a := &xast{}
+				var root int
+				addVar := func(nm string) {
+					v := a.add(xnode{K: "var", Text: nm, Key: strings.ToLower(nm)})
+					if root == 0 {
+						root = v
+					} else {
+						root = a.add(xnode{K: "bin", Op: "Plus", Kids: []int{root, v}})
+					}
+				}
+				for i := 0; i < cnt; i++ {
+					addVar(fmt.Sprintf("v%d", i))
+				}
+				for _, i := range []int{cnt - 1, 0, cnt - 2, 33, 32, cnt - 1} {
+					if i >= 0 && i < cnt {
+						switch variant {
+						case 0:
+							addVar(fmt.Sprintf("v%d", i))
+						case 1:
+							addVar(fmt.Sprintf("V%d", i))
+						default:
+							addVar(fmt.Sprintf("v%d", i))
+							addVar(fmt.Sprintf("w%d", i))
+						}
+					}
+				}
+				g.Run("many distinct variables, late ones repeated", []Ev{{"op": "names", "nodes": nodesAny(a), "root": root, "mode": 0, "pseed": int(r.Int31())}})
+			}
+		}
 		// identifiers that look like something else: function names, keywords inside quotes, quoted identifiers
 		special := []string{"f(x) + F(y) + f", "'a' + a + \"a\"", "\"quoted id\" + 1", "NOT NOTx AND nota", "Min(Max(a, b), A)", "x IS NULL OR X IS NOT NULL",
 			"a[b] + A[B]", "'x' IN xs", "TRUE AND true_ OR False_", "sum(1,2) + Sum", "a.b", "_a + _A + __"}
@@ -465,6 +506,38 @@ func genC18(g *Gen) {
 				seg = append(seg, mk(ops[r.Intn(len(ops))], r.Intn(1000)))
 			}
 			g.Run("random operation sequences", seg)
+		}
+		// names whose upper-case form has another length in bytes or is an ASCII letter; many entries
+		odd := []string{"\u2c65b", "\u023aB", "\u0131x", "Ix", "ix", "\u017ft", "ST", "st", "\u212aelvin", "kelvin", "Kelvin", "stra\u00dfe", "STRASSE", "\u00ff", "\u0178"}
+		names = odd
+		for i := 0; i < g.Pick(800, 8000); i++ {
+			seg := []Ev{{"op": "new", "kind": []string{"variables", "functions"}[r.Intn(2)]}}
+			for k := 3 + r.Intn(25); k > 0; k-- {
+				seg = append(seg, mk([]string{"add", "add", "find", "findindex", "locate", "removebyname", "setvalue", "length"}[r.Intn(8)], r.Intn(1000)))
+			}
+			g.Run("names with unusual case mappings", seg)
+		}
+		for _, kind := range []string{"variables", "functions"} {
+			for _, nm := range odd {
+				g.Run("names with unusual case mappings", []Ev{{"op": "new", "kind": kind}, {"op": "add", "name": "first", "isnull": false}, {"op": "add", "name": nm, "isnull": false},
+					{"op": "find", "name": nm}, {"op": "findindex", "name": strings.ToUpper(nm)}, {"op": "locate", "name": strings.ToLower(nm)}, {"op": "removebyname", "name": nm}, {"op": "length"}})
+			}
+			for _, cnt := range []int{33, 65, 130, 300} {
+				if cnt > g.Pick(130, 300) {
+					continue
+				}
+				seg := []Ev{{"op": "new", "kind": kind}}
+				for i := 0; i < cnt; i++ {
+					seg = append(seg, Ev{"op": "add", "name": fmt.Sprintf("n%d", i), "isnull": i%2 == 0})
+				}
+				for _, i := range []int{0, 31, 32, 33, 63, 64, cnt - 1} {
+					if i < cnt {
+						seg = append(seg, Ev{"op": "find", "name": fmt.Sprintf("N%d", i)}, Ev{"op": "findindex", "name": fmt.Sprintf("n%d", i)}, Ev{"op": "get", "index": i})
+					}
+				}
+				seg = append(seg, Ev{"op": "removebyname", "name": fmt.Sprintf("N%d", cnt-1)}, Ev{"op": "remove", "index": 32}, Ev{"op": "length"}, Ev{"op": "find", "name": "n33"}, Ev{"op": "clear"}, Ev{"op": "length"})
+				g.Run("many entries", seg)
+			}
 		}
 	case "tmpl":
 		mg := &mgen{r: r}
